@@ -61,31 +61,47 @@ def idsOfKey (items : List Item) (key : SKey) : List Id :=
     | .k2i k i => if k = key then some i else none
     | _ => none
 
+def minId : List Id → Option Id
+  | [] => none
+  | x :: t =>
+    match minId t with
+    | none => some x
+    | some m => some (min x m)
+
+def maxId : List Id → Option Id
+  | [] => none
+  | x :: t =>
+    match maxId t with
+    | none => some x
+    | some m => some (max x m)
+
 /-- `indexSearch.getTSIDBySeriesKey`: the items of a key are visited by ascending tsid; the first
 one that is not deleted answers, else the last one. -/
 def lookupIndex (items : List Item) (deleted : List Id) (key : SKey) : Option Id :=
   let ids := idsOfKey items key
-  match (ids.filter (fun i => !decide (i ∈ deleted))).min? with
+  match minId (ids.filter (fun i => !decide (i ∈ deleted))) with
   | some i => some i
-  | none => ids.max?
+  | none => maxId ids
 
 def cacheGet (c : List (SKey × Id)) (key : SKey) : Option Id :=
   match c.find? (fun e => decide (e.1 = key)) with
   | some e => some e.2
   | none => none
 
-/-- `MergeSetIndex.getSeriesIdBySeriesKey` (bloom filter disabled). The deferred cache put also
-stores a deleted tsid that the index lookup found. -/
+/-- slow path of `getSeriesIdBySeriesKey`: index lookup; the deferred cache put also stores a
+deleted tsid that the lookup found. -/
+def slowLookup (s : St) (key : SKey) : Id × St :=
+  match lookupIndex s.vis s.deleted key with
+  | some id =>
+    let s' := if id ≠ 0 then { s with tsid := (key, id) :: s.tsid } else s
+    if id ∉ s.deleted then (id, s') else (0, s')
+  | none => (0, s)
+
+/-- `MergeSetIndex.getSeriesIdBySeriesKey` (bloom filter disabled). -/
 def getSeriesId (s : St) (key : SKey) : Id × St :=
-  let slow : Id × St :=
-    match lookupIndex s.vis s.deleted key with
-    | some id =>
-      let s' := if id ≠ 0 then { s with tsid := (key, id) :: s.tsid } else s
-      if id ∉ s.deleted then (id, s') else (0, s')
-    | none => (0, s)
   match cacheGet s.tsid key with
-  | some id => if id ∉ s.deleted then (id, s) else slow
-  | none => slow
+  | some id => if id ∉ s.deleted then (id, s) else slowLookup s key
+  | none => slowLookup s key
 
 /-- `createIndexesIfNotExists` + `createIndexes`. -/
 def insert (s : St) (key : SKey) : Id × St :=
@@ -239,12 +255,9 @@ def searchWithCache (M : Matchers Re) (items : List Item) (del : List Id) (mst :
     let (ids, cost) := leafEval M items del mst a
     (ids, cost, if ids.isEmpty then c else { c with filter := (k, ids) :: c.filter })
 
-/-- comparator of `sortTagFilterWithCost`. -/
+/-- comparator of `sortTagFilterWithCost` (translated from the source by ogfacts). -/
 def tfLess (M : Matchers Re) (a b : Atom Re × Int) : Bool :=
-  if a.1.isEmptyValue M && b.1.isEmptyValue M then decide (a.2 < b.2)
-  else if b.1.isEmptyValue M && !a.1.isEmptyValue M then true
-  else if a.1.isEmptyValue M then false
-  else decide (a.2 < b.2)
+  OG.Gen.C10.tfLess (a.1.isEmptyValue M) (b.1.isEmptyValue M) a.2 b.2
 
 /-- Go's `insertionSort` (what `sort.Slice` runs for at most 12 elements); the accumulator is the
 sorted prefix in reverse. -/
@@ -356,6 +369,15 @@ def tagVals (M : Matchers Re) (s : St) (mst k : Str) (p : Option (Pred Re)) : Li
       if m = mst ∧ k' = k ∧ i ∉ s.deleted ∧ eligible elig i = true then some v
       else none
     | _ => none
+
+/-- `SearchSeriesKeys`: the keys of the series the show-series path selects (`searchSeriesKey` per
+tsid). Rendering a key as text is outside the model (see finding `listing_text_unescaped`). -/
+def seriesKeys (M : Matchers Re) (s : St) (mst : Str) (p : Option (Pred Re)) : List SKey :=
+  (searchShow M s mst p).filterMap (keyOfId s.vis)
+
+/-- tag keys of a measurement as the engine derives them from the series keys (`handleTagKeys`). -/
+def tagKeys (M : Matchers Re) (s : St) (mst : Str) (p : Option (Pred Re)) : List Str :=
+  (seriesKeys M s mst p).flatMap (fun k => k.tags.map (·.1))
 
 /-- `DeleteTSIDs` → `WriteDeleteTsids` (invalidates the tag filter cache since fix 1e92f07). -/
 def delete (M : Matchers Re) (s : St) (mst : Str) (p : Option (Pred Re)) : St :=
